@@ -1,6 +1,6 @@
 (** What C14 demands. *)
 Require Import AT.Model.Base AT.Model.Rose AT.Spec.IterSpec.
-Open Scope Z_scope.
+Local Open Scope Z_scope.
 
 (** the count rule: below mincount first, then above maxcount *)
 Definition count_check (lo hi : option Z) (l : list id) : result (list id) :=
